@@ -28,8 +28,10 @@ LEVEL_TEXT = ('Kernel-checked theorems (Props/C12.v).  Unbounded (invariant proo
               'kernel) agree exactly with the rebuilt working-tree kernels on every symmetric graph on <= 5 vertices '
               '(6 thorough) and every directed pattern on <= 3 vertices; a partition oracle decides the property on the '
               'public routines incl. multi-pass pairwise (<= 2^matchings) and Lloyd aggregation.')
-LEVEL_NOTE = ('Naive and standard aggregation have unbounded theorems (any size; standard: symmetric pattern); pairwise is bounded (<= 4 '
-              'vertices); the tie to the code is the exhaustive <= 5/6-vertex correspondence.  Lloyd / balanced Lloyd: oracle only.')
+LEVEL_NOTE = ('Naive and standard aggregation have unbounded theorems (any size; standard: symmetric pattern); one pairwise matching '
+              '(ids, sizes 1-2, termination) and the 2^m bound for composed matchings are unbounded too, pairwise roots (Cpts) bounded '
+              '(<= 4 vertices) + oracle; the tie to the code is the exhaustive <= 5/6-vertex correspondence and the composition '
+              'correspondence.  Lloyd / balanced Lloyd: oracle only.')
 RULE = ('complete enumeration of symmetric graphs on 1..5 (6 thorough) vertices with/without diagonal and of directed '
         'patterns on <= 3 vertices: standard, naive, pairwise (tied integer weights) kernels == Gallina model exactly; '
         'public standard/naive/pairwise/lloyd aggregation on random symmetric strength graphs (stars, cliques, isolated '
